@@ -44,6 +44,7 @@ type c51Witness struct {
 	Mod      string                 `json:"mod"`
 	CfgSeed  uint64                 `json:"cfg_seed,string"`
 	CaseSeed uint64                 `json:"case_seed,string"`
+	Family   string                 `json:"family,omitempty"` // "" = the base workload, "ambig" = credential-ambiguity family (c51ambig.go)
 	Shape    string                 `json:"shape"`
 	Want     string                 `json:"want"`
 	Why      string                 `json:"why"`
@@ -89,6 +90,10 @@ type c51Mod struct {
 	cases [2]int
 	// counters that the workload must reach
 	must []string
+	// ambig generates and judges case caseSeed of the credential-ambiguity family
+	// (repeated / competing credentials, c51ambig.go); nil for modules without credentials.
+	ambig      func(r *vkit.Run, env *modEnv, sc interface{}, cfgSeed, caseSeed uint64, now int64)
+	ambigCases [2]int
 }
 
 // c51Shapes counts, per module:shape, the reference verdicts and what bfe did
@@ -220,11 +225,13 @@ func c51(r *vkit.Run) {
 		"jwt: valid HS/RS/PS/ES tokens, alg=none (with/without signature, 2 parts), HS* signed with the RSA/EC public key bytes (PEM/DER/JWK/modulus), alg differing from the key's declared alg, sibling alg on an undeclared key, wrong/foreign/cross-rule key, truncated/extended/bit-flipped/zero/empty/DER signature, payload or header altered after signing, expired, not-yet-valid, exp 0 / non-numeric exp+nbf, duplicated claims and header members, non-JSON payload/header, unknown/lower-case/non-string/missing alg, 1/2/4/5-part tokens, padded segments, Authorization shapes. Time claims are >= 1 h away from now. " +
 		"securelink: valid, wrong/one-char/truncated/padded/std-alphabet/hex/case-flipped checksum, missing/empty checksum or expires, expired, non-numeric expires, node omitted/reordered, node value or expiry changed after signing, other secret, duplicate checksum parameter, link built by the documented procedure for a uri-node rule, uncovered host. " +
 		"block: Accept with client addresses at every range boundary +-1 (4- and 16-byte IPv4, IPv6), requests against first-match global-then-product rule lists. " +
+		"Credential-ambiguity family (c51ambig.go; own generator streams, own rules a<i>.example.org for securelink): securelink links valid / validly-signed-but-expired / invalid with ONE argument repeated: the expires argument, the checksum argument, a signed query-node argument, or a second expiry together with the checksum issued for it; the repetition appended, prepended or (pair) crossed; forged value future / past / empty / same / other; its name plain, first letter upper-cased (a different key), one letter percent-encoded (the same key), or without '='; joined with '&' or with ';' (net/url drops a pair containing ';'). Oracle: admitted <=> the reading req.URL.Query().Get = FIRST value of every argument, the same for signing input, checksum and expiry, is a valid unexpired link; separately, independent of first/last: admitted => SOME reading taking one occurrence per argument for every use is valid (else the expiry checked is not the expiry signed). basic / jwt: 2-3 Authorization lines valid+invalid in both orders (second line optionally authorization/AUTHORIZATION), both invalid, both valid, two credentials comma-joined in one line, a valid or invalid credential in a cookie / query argument (jwt: access_token) / Proxy-Authorization / X- header with the Authorization field invalid, valid or missing, duplicated cookies. Oracle: every presented credential invalid => rejected with the documented 401; one canonical valid Authorization line + decoys elsewhere => admitted; basic credential valid only in cookie/query/X- header => rejected; valid next to invalid in Authorization lines, valid only in Proxy-Authorization (jwt: anywhere outside Authorization), jwt access_token query next to a valid header => not judged (no documented precedence / RFC 6750 allows either). Every shape class must occur or the run is inconclusive. " +
 		"Oracle per request: admit / reject(with the documented rejection) / not judged (valid credential in a non-canonical encoding, duplicate parameters or members where the RFC allows either, future iat). Excluded because the docs are silent: rule order among overlapping conditions of the auth modules (conditions are disjoint), kid matching, JWK private keys, null/array JWT payloads, trailing bytes after the claims object, time claims beyond int64, omitted ChecksumKey/ExpiresKey, expires with sign/overflow, ip ranges starting at 0.0.0.0 or :: (C19). Non-trivial = request reached the module handler with a covering rule (or an Accept decision); distinct = (module, cfg seed, request bytes / client address; for jwt the case recipe, because PSS/ECDSA signatures are randomized)")
 	r.Assume("std crypto (md5, sha1, hmac, rsa, ecdsa) and golang.org/x/crypto/bcrypt are correct; bcrypt is also what the library under bfe uses, so bcrypt cases check the dispatch, not the primitive")
 	r.Assume("apr1-MD5 reference written here from the Apache apr_md5 algorithm and checked against the documented vector user1:123456")
 	r.Assume("condition primitives req_host_in / req_path_in / req_cip_range behave as documented for exact lower-case hosts, exact paths and in-range addresses (other properties)")
 	r.Assume("mod_block: rule lists are first-match, global list before the product list (the only reading under which the documented ALLOW action has an effect)")
+	r.Assume("secure-link arguments are read as Go's net/url delivers them (the documentation writes req.URL.Query($Param)): '&' separates, a pair containing ';' or a bad escape is dropped, names are case-sensitive and percent-decoded, Get returns the first value; the harness's own reader of this is compared with net/url on fixed vectors at start")
 	r.Assume("requests are built without a server: HttpRequest.RemoteAddr is set to ip:port as bfe_server/http_conn.go does")
 
 	now := time.Now().Unix()
@@ -250,7 +257,11 @@ func c51(r *vkit.Run) {
 				r.Inconclusive(m.name + " load: " + err.Error())
 				return
 			}
-			m.run(r, env, sc, w.CfgSeed, w.CaseSeed, now)
+			if w.Family == "ambig" && m.ambig != nil {
+				m.ambig(r, env, sc, w.CfgSeed, w.CaseSeed, now)
+			} else {
+				m.run(r, env, sc, w.CfgSeed, w.CaseSeed, now)
+			}
 			r.SetMinDistinct(0)
 			return
 		}
@@ -285,8 +296,14 @@ func c51(r *vkit.Run) {
 				caseSeed := r.Rng("case-"+m.name, k, i).U64()
 				m.run(r, env, sc, cfgSeed, caseSeed, now)
 			}
+			if m.ambig != nil {
+				for i := 0; i < m.ambigCases[ti]; i++ {
+					m.ambig(r, env, sc, cfgSeed, r.Rng("ambig-"+m.name, k, i).U64(), now)
+				}
+			}
 		}
 	}
+	c51AmbFinish(r)
 	c51ShapesMu.Lock()
 	r.Extra("shapes", c51Shapes)
 	c51ShapesMu.Unlock()
